@@ -251,8 +251,8 @@ def run(chk, tier):
         mc = bg.submit(model_check, chk, tier)
         # the hand-built probes of every admitted feature (and of the family boundary) lead the first batch
         fixed = javaslice.fixed_programs()
-        n = 32 if tier == "quick" else 900
-        batch = 32 if tier == "quick" else 100
+        n = 26 if tier == "quick" else 900
+        batch = 26 if tier == "quick" else 100
         budget = 100 if tier == "quick" else 1500
         done, k = 0, 0
         while done < n:
